@@ -454,3 +454,86 @@ spec("C14", jobs=c14_jobs,
      budget=dict(quick=1500, thorough=7200),
      rule="executions = distinct choice sequences within the deviation bound, per object type; distinct_nontrivial = distinct outcome signatures",
      assumptions=DES_ASSUME)
+
+
+# ----------------------------------------------------------------------------- C20
+def c20_jobs(tier):
+    def j(name, bmax=0, deadline=300, **o):
+        return dict(name=name, harness="c20_mempool", opts=o, bound_min=0, bound_max=bmax, deadline=deadline,
+                    crash_is_violation=True, recycle=500)
+    D = 11 if tier == "quick" else 14
+    jobs = [j("seq-8x512", objsz=8, objnum=512, mode="seq", depth=D),
+            j("seq-2048x2", objsz=2048, objnum=2, mode="seq", depth=D),
+            j("seq-4096x1", objsz=4096, objnum=1, mode="seq", depth=D),
+            j("seq-24", objsz=24, objnum=3, mode="seq", depth=D),
+            j("seq-4104", objsz=4104, objnum=1, mode="seq", depth=D - 1),
+            j("ramp66-4096", 1 if tier == "quick" else 2, objsz=4096, objnum=1, mode="ramp", target=66),
+            j("ramp66-2048", 1, objsz=2048, objnum=2, mode="ramp", target=132),
+            j("ramp-8x512", 0, objsz=8, objnum=512, mode="ramp", target=33300, nochoice=1),
+            j("static-tls", 0, mode="static", target=400)]
+    if tier != "quick":
+        jobs += [j("ramp130-4096", 2, 1500, objsz=4096, objnum=1, mode="ramp", target=130),
+                 j("ramp66-4104", 2, 1500, objsz=4104, objnum=1, mode="ramp", target=66),
+                 j("static-tls-big", 0, mode="static", target=12000)]
+    return jobs
+
+
+spec("C20", jobs=c20_jobs,
+     technique="explicit-state exhaustive enumeration of alloc/free sequences on the real cmi_mempool (small scope) plus deviation-bounded ramps across the 64-chunk growth point, under AddressSanitizer",
+     level_text="All alloc/free sequences of length <= D (free oldest / newest / middle) for chunk geometries of 1, 2 and 512 objects per "
+                "4 KiB chunk and odd sizes (24, 4104), and ramps that take the pool past 64 and 128 chunks with up to two departures "
+                "(a free at any position), plus a statically initialised thread-local pool used and cleaned up on a second thread. "
+                "Reference = set of live (address, stamp): alignment, disjointness from every live object, stamp pattern intact over "
+                "the whole object at free and at the end; AddressSanitizer turns chunk-list corruption into a reported crash.",
+     level_note="Trusted: the live-set model in harness/c20_mempool.c, the explorer, AddressSanitizer. Not covered: more than 130 chunks.",
+     budget=dict(quick=900, thorough=5400),
+     rule="every alloc/free sequence up to the depth, and every ramp with <= B frees inserted; distinct_nontrivial = distinct outcome "
+          "signatures (live count x chunk count trace); states = distinct (live, chunks, allocations) triples",
+     assumptions=["object sizes are multiples of 8 (documented precondition)"])
+
+
+# ----------------------------------------------------------------------------- C10
+UNION_OPS = ("hold0,hold1,tadd1,tset1,tcancel0,tclear,yield,resume0,resume1,waitp0,waitp1,waitp2,evsched1,waite0,evcancel0,"
+             "int0,int1,int2,stop0,stop1,stopself,exit,prio0.2,prio1.0,start1,"
+             "racq0,rpre0,rrel0,pacq1,pacq2,ppre2,prel1,bput2,bget2,oqput0,oqget,pqput1,pqget,pqcancel,pqreprio2,"
+             "cwait0,cwait3,csig,setx1,ccancel1,cremove1,recon,recoff")
+
+
+def c10_jobs(tier):
+    def ramp(mode, deadline=300):
+        return dict(name="ramp-" + mode, harness="c10_ramps", opts=dict(mode=mode), bound_min=0, bound_max=0,
+                    deadline=deadline, crash_is_violation=True, recycle=200, run_timeout=60)
+    b = 2 if tier == "quick" else 3
+    dl = 400 if tier == "quick" else 2400
+    jobs = [
+        dict(des("union-p3", "none", b, dl, procs=3, prios="0,1,2", budget=3, res=1, pool=2, buf=2, oq=1, pq=1, cond=1,
+                 subscribe="res", ops=UNION_OPS, script0="racq0,hold1,rrel0", script1="pacq2,hold1,prel1",
+                 script2="tadd1,bget2,hold1"), crash_is_violation=True),
+        dict(des("union-p3-eqprio", "none", b, dl, procs=3, prios="0,0,0", budget=3, res=1, pool=2, buf=2, oq=1, pq=1,
+                 cond=1, subscribe="csub", ops=UNION_OPS, script0="hold1,int1,hold1", script1="hold1,hold1",
+                 script2="waitp1,tadd1,racq0"), crash_is_violation=True),
+        dict(des("union-p2-deep", "none", b + 1, dl, procs=2, prios="0,0", budget=4, res=1, pool=2, buf=2, oq=1, pq=1,
+                 cond=1, ops=UNION_OPS, script0="hold1,hold1", script1="hold1,int0"), crash_is_violation=True),
+        ramp("evwait"), ramp("procwait"), ramp("guardq"), ramp("holders"), ramp("timers", 600), ramp("oqueue", 600),
+        ramp("observers", 600),
+    ]
+    return jobs
+
+
+spec("C10", jobs=c10_jobs, crash_is_violation=True,
+     technique="explicit-state search over valid process programs with the union alphabet of all simulation-engine operations, plus exhaustive parametric threshold ramps, on an AddressSanitizer+UBSan build; oracle = no sanitizer report, no library abort",
+     level_text="(1) The DES driver with every operation of the engine enabled (processes, timers, waits, interrupts, stops, restarts, "
+                "resource, pool, buffer, both queues, condition with observers, recording) generates only programs that respect the "
+                "documented preconditions; every choice sequence within the deviation bound runs on a build with AddressSanitizer "
+                "(fiber-annotated via hook H1) and a UBSan subset; any sanitizer report, signal or library assert is a violation. "
+                "(2) Threshold ramps enumerate container populations on both sides of every growth point crossed with the operation "
+                "that triggers growth while the library holds a pointer into the container: waiters on an event / a process x event "
+                "queue population (8/16/32), waiting lists and holder lists at 7-9 and 15-17 entries x interrupt/stop/priority change/"
+                "timeout/cancel, 8189-8196 armed timers of one process (64 tag chunks), 16381-16387 queued objects and observers.",
+     level_note="Trusted: the driver's validity predicate (a crash on a program it generated is triaged by replay), AddressSanitizer, "
+                "UBSan (alignment and null checks off: the tree uses offsetof-by-null-pointer and one deliberate unaligned store), "
+                "the explorer's crash classification. The shipped -O3/LTO build is not the one explored.",
+     budget=dict(quick=1800, thorough=7200),
+     rule="union jobs: distinct choice sequences within the deviation bound; ramps: every (population, operation, position) tuple; "
+          "distinct_nontrivial = distinct outcome signatures",
+     assumptions=DES_ASSUME + ["data-array thresholds (dataset/timeseries at 1023-2049 samples) are exercised by the C17/C18 harnesses under the same sanitizer build"])
